@@ -63,7 +63,7 @@ def gen_plan(tape, cfg):
     for _ in range(tape.rint(30, 120, "nops")):
         k = tape.weighted([(10, "build"), (2, "illtyped"), (2, "simplify"), (2, "substitute"), (3, "normalize"),
                            (2, "const"), (2, "eqhash"), (1, "collapse"), (1, "quant_order"), (1, "normalize_clash"),
-                           (1, "builtin_named_sort"), (1, "array_subst"), (1, "pickle"), (1, "equal_type")], "op")
+                           (1, "builtin_named_sort"), (1, "array_subst"), (1, "pickle"), (1, "equal_type"), (1, "parametric_sort")], "op")
         o = {"op": k, "client": tape.draw(nclients, "client"), "env": tape.draw(nenv, "env"),
              "i": tape.draw(len(pool), "formula")}
         if k == "build":
@@ -755,6 +755,34 @@ def execute(plan, tape):
                                     (where, na, nb, _s(cp), [str(a_.symbol_type()) for a_ in cp.args()], _s(src),
                                      [str(a_.symbol_type()) for a_ in src.args()]))
                 trace.append(("normalize_clash", "copied"))
+            elif k == "parametric_sort":
+                # symbols whose type mentions a parametric user sort (below the top level too) are
+                # copied into another environment faithfully and come back as the original object
+                import pysmt.typing as T
+                tm = env.type_manager
+                Pair = tm.Type("Pair", 2)
+                p_ir = tm.get_type_instance(Pair, T.INT, T.REAL)
+                tys = {"ps_top": p_ir, "ps_arr": tm.ArrayType(T.INT, p_ir),
+                       "ps_nest": tm.get_type_instance(Pair, tm.get_type_instance(Pair, T.INT, T.INT), T.REAL),
+                       "ps_fun": tm.FunctionType(T.BOOL, [p_ir, T.INT])}
+                for nm in sorted(tys):
+                    src = mgr.Symbol(nm, tys[nm])
+                    register(ei, src, o["client"], "parametric_sort", step, where)
+                    if len(envs) > 1:
+                        ti = (ei + 1) % len(envs)
+                        cp = envs[ti].formula_manager.normalize(src)
+                        penv.push_env(envs[ti])
+                        try:
+                            register(ti, cp, o["client"], "parametric_sort", step, where + " (copy)")
+                        finally:
+                            penv.pop_env()
+                        if keyer[ti].key(cp) != keyer[ei].key(src):
+                            raise Violation("C04:normalize:structure", "%s: copy of %s : %s is %s : %s" %
+                                            (where, nm, src.symbol_type(), cp, cp.symbol_type()))
+                        if mgr.normalize(cp) is not src:
+                            raise Violation("C04:normalize:round-trip", "%s: %s does not come back as the original object" % (where, nm))
+                probe("parametric_sort")
+                trace.append(("parametric_sort",))
             elif k == "equal_type":
                 # a type given as an equal but distinct object (built directly from the type classes)
                 # denotes the same type: same symbol object, same constant-array object
